@@ -60,6 +60,11 @@ type c06Case struct {
 	SilentRaw   int `json:"silent_raw,omitempty"`
 	// late-execute: in reshare HoldReshare (0-based) the execute packet towards one follower arrives HoldMs late
 	// (after the kick-off time), followed in order by everything that was sent to it meanwhile.
+	SilentOld bool `json:"silent_is_an_old_member,omitempty"`
+	// direct-link-lost: bundles of LinkKind sent by one participant reach one other participant only through echoes
+	LinkKind         string `json:"lost_link_kind,omitempty"`
+	LinkRaw          int    `json:"lost_link_raw,omitempty"`
+	LinkToHighestKey bool   `json:"lost_link_towards_highest_key,omitempty"`
 	HoldMs  int `json:"hold_ms,omitempty"`
 	HoldRaw int `json:"hold_raw,omitempty"`
 }
@@ -122,6 +127,12 @@ func c06MakeFamilyCase(idx int, fam string) c06Case {
 				rs.Kind = "same"
 			case 1:
 				rs.Kind, rs.Add = "+1", 1
+				if rng.Bool() {
+					// an OLD member is the silent one and the threshold rises above the number of dealers left:
+					// enough for the old threshold, fewer than the new one
+					c.SilentOld = true
+					rs.Kind = "+1,t-above-dealers"
+				}
 			default:
 				if c.N-1 >= 4 && c.N-1 >= c.T {
 					rs.Kind, rs.Remove = "-1", 1
@@ -131,6 +142,25 @@ func c06MakeFamilyCase(idx int, fam string) c06Case {
 			}
 			n2 := c.N - rs.Remove + rs.Add
 			rs.NewT = rng.Range(c06MinT(n2), n2-1)
+			if c.SilentOld {
+				rs.NewT = n2 - 1 // = N > N-1 dealers >= T
+			}
+		}
+		c.Reshares = []c06Reshare{rs}
+	case "direct-link-lost":
+		// one dealer's own bundles of one phase never arrive at one node directly: the re-broadcast by the others is
+		// what the protocol relies on ("echo broadcast ... so all nodes see the same bundles")
+		c.N = 4 + (idx/6+off)%3
+		c.T = rng.Range(c06MinT(c.N), c.N-1)
+		c.Period = []int{1, 2, 3, 5}[rng.Intn(4)]
+		c.Catchup = rng.Range(0, c.Period)
+		c.LinkKind = []string{"deal", "deal", "resp"}[rng.Intn(3)]
+		c.LinkRaw = rng.Intn(1 << 20)
+		c.LinkToHighestKey = rng.Bool()
+		rs := c06Reshare{Kind: "same", NewT: c.T}
+		if rng.Chance(40) {
+			rs.Kind, rs.Add = "+1", 1
+			rs.NewT = rng.Range(c06MinT(c.N+1), c.N)
 		}
 		c.Reshares = []c06Reshare{rs}
 	case "late-execute":
@@ -159,6 +189,8 @@ func c06MakeCase(idx int) c06Case {
 		return c06MakeFamilyCase(idx, "silent-participant")
 	case 5:
 		return c06MakeFamilyCase(idx, "late-execute")
+	case 1:
+		return c06MakeFamilyCase(idx, "direct-link-lost")
 	}
 	cs := vfCaseSeed(vfSeed(), "C06", idx)
 	rng := vfNewRng(cs)
@@ -306,6 +338,27 @@ func (x *c06Ctx) info(extra map[string]any) map[string]any {
 	return m
 }
 
+// applyLostLink: for the direct-link-lost family, pick dealer and destination among the participants of the epoch.
+func (x *c06Ctx) applyLostLink(participants []*vfdNode) {
+	x.net.setDropLink(nil)
+	if x.c.Family != "direct-link-lost" || len(participants) < 4 {
+		return
+	}
+	rank := vfdRankByKey(participants)
+	byRank := make([]*vfdNode, len(participants))
+	for _, nd := range participants {
+		byRank[rank[nd.addr]] = nd
+	}
+	dst := byRank[x.c.LinkRaw%len(byRank)]
+	if x.c.LinkToHighestKey {
+		dst = byRank[len(byRank)-1]
+	}
+	others := c06Without(participants, dst)
+	src := others[(x.c.LinkRaw/7)%len(others)]
+	x.net.setDropLink(map[string]string{src.addr + ">" + dst.addr: x.c.LinkKind})
+	x.run.Count("epochs_with_a_lost_direct_link", 1)
+}
+
 func (x *c06Ctx) applySlow(sp *vfdSlowSpec, participants []*vfdNode) {
 	if sp == nil || len(participants) == 0 {
 		x.net.setSlow(nil)
@@ -377,6 +430,7 @@ func c06RunCase(run *vfRun, base string, c c06Case) {
 	leader := c06Without(members, x.silent)[x.rng.Intn(len(c06Without(members, x.silent)))]
 	listed := vfdShuffled(x.rng, members)
 	x.applySlow(c.Slow1, listed)
+	x.applyLostLink(listed)
 	genesis := time.Now().Add(3 * time.Second).Truncate(time.Second)
 	if err := leader.cmdInitial(uint32(c.T), uint32(c.Period), uint32(c.Catchup), c.Scheme, time.Now().Add(time.Minute), genesis, vfdParts(listed)); err != nil {
 		// a one-node network has nobody to gossip to: the command stores the proposal and then reports
@@ -450,10 +504,14 @@ func c06RunCase(run *vfRun, base string, c c06Case) {
 		x.silent = nil
 		if c.Family == "silent-participant" && c.SilentEpoch == ri+2 && len(participants) >= 3 {
 			x.silent = x.pickSilent(participants)
+			if c.SilentOld && len(remaining) >= 3 {
+				x.silent = x.pickSilent(remaining)
+			}
 		}
 		rcand := c06Without(remaining, x.silent)
 		rleader := rcand[x.rng.Intn(len(rcand))]
 		x.applySlow(rs.Slow, participants)
+		x.applyLostLink(participants)
 		if c.Family == "late-execute" && ri == 0 {
 			followers := c06Without(participants, rleader)
 			if len(followers) > 0 {
@@ -863,6 +921,20 @@ func (x *c06Ctx) oracle(views []c06NodeView, participants []*vfdNode, exp c06Exp
 	}
 	if !evicted && nFailed == 0 && len(views) != len(participants) {
 		chk("node-set", false, "missing completions")
+	}
+	// every reachable participant the completed group lists must itself have completed: a listed member whose own
+	// run failed holds no share of the key, and a group of n listed nodes with fewer share holders than its threshold
+	// can never sign
+	done := map[string]bool{}
+	for _, v := range views {
+		done[v.nd.addr] = true
+	}
+	for _, nd := range participants {
+		if nd == x.silent || done[nd.addr] || rg.Find(nd.kp.Public) == nil {
+			continue
+		}
+		run.Violation("C06/listed-member-did-not-complete/"+phase,
+			fmt.Sprintf("epoch %d: %s is listed (index %d) in the group %d node(s) completed with, but its own run of the protocol failed: it holds no share", x.epoch, nd.addr, rg.Find(nd.kp.Public).Index, len(views)), x.info(nil))
 	}
 	if x.silent != nil && rg.Find(x.silent.kp.Public) == nil && len(rg.Nodes) == len(participants)-1 {
 		run.Count("groups_equal_to_participants_minus_the_silent_one", 1)
